@@ -150,6 +150,7 @@ type appCall struct {
 	expectFail bool
 	busy       int32 // an asynchronous sender is still using the answer
 	pending    int32 // 1 while an asynchronous sender goroutine owns ans/release/cancel
+	finishFailed bool // the write of its cancel-Finish was made to fail (transport fault)
 	relT0, relT1 int64
 	// result bookkeeping
 	resUID uint64
